@@ -179,7 +179,7 @@ def body_rows(ctx, case):
 
 def sub_rows(ctx):
     strat = st.fixed_dictionaries({"rows": st.lists(ROWS, min_size=10, max_size=30)})
-    ctx.hyp(strat, lambda c: body_rows(ctx, c), ctx.n(300, 8000))
+    ctx.hyp(strat, lambda c: body_rows(ctx, c), ctx.n(900, 8000))
 
 
 # ---- printf
@@ -234,7 +234,7 @@ def body_printf(ctx, case):
 
 def sub_printf(ctx):
     strat = st.fixed_dictionaries({"rows": st.lists(st.fixed_dictionaries({"v": NUMS, "f": FMTS}), min_size=10, max_size=30)})
-    ctx.hyp(strat, lambda c: body_printf(ctx, c), ctx.n(150, 4000))
+    ctx.hyp(strat, lambda c: body_printf(ctx, c), ctx.n(450, 4000))
 
 
 # ---- --ofmt and format-values
@@ -261,7 +261,7 @@ def body_ofmt(ctx, case):
 def sub_ofmt(ctx):
     strat = st.fixed_dictionaries({"vals": st.lists(st.one_of(st.integers(-999, 999).map(str), st.floats(-999, 999).map(lambda x: "%.5f" % x)), min_size=1, max_size=8),
                                    "ofmt": st.sampled_from(["%.3f", "%.6lf", "%.2e", "%10.4f", "%.0f", "%08.3lf"])})
-    ctx.hyp(strat, lambda c: body_ofmt(ctx, c), ctx.n(80, 1500))
+    ctx.hyp(strat, lambda c: body_ofmt(ctx, c), ctx.n(240, 1500))
 
 
 # ---- DSL string-literal escapes and regex-literal positions
@@ -307,7 +307,7 @@ def body_esc(ctx, case):
 
 
 def sub_esc(ctx):
-    ctx.hyp(esc_case(), lambda c: body_esc(ctx, c), ctx.n(250, 5000))
+    ctx.hyp(esc_case(), lambda c: body_esc(ctx, c), ctx.n(750, 5000))
 
 
 # ---- capture state machine
@@ -367,7 +367,7 @@ def body_cap(ctx, case):
 
 
 def sub_cap(ctx):
-    ctx.hyp(cap_case(), lambda c: body_cap(ctx, c), ctx.n(200, 3000))
+    ctx.hyp(cap_case(), lambda c: body_cap(ctx, c), ctx.n(600, 3000))
 
 
 # ---- long digests
